@@ -47,3 +47,16 @@ Theorem C05_writer_boundary_free : forall (BUF : N) (out : str),
   writer_call (fun _ => true) BUF out = Ok out.
 Proof. intros BUF out. now apply writer_call_no_fault. Qed.
 Print Assumptions C05_writer_boundary_free.
+
+(** the four unquoter configurations in use: both backends return the same string for EVERY
+    input (malformed, truncated and undecodable escapes, lone surrogates, '+' included) -
+    each equals the decoding specification Spec/Decode.v (C06_unquoters_are_the_decoding_spec) *)
+From Yarl Require Import Model.Unquoter Spec.Decode Proofs.DecodeProofs.
+Theorem C05_unquote_eq : forall ku fl (s : str),
+  In (ku, fl) flavour_of -> unquote_impl BC ku s = unquote_impl BPy ku s.
+Proof. intros ku fl s Hin. now rewrite !(unquote_impl_is_spec _ ku fl s Hin). Qed.
+Print Assumptions C05_unquote_eq.
+
+Theorem C05_unquoters_covered : map fst flavour_of = ALL_UNQUOTERS.
+Proof. reflexivity. Qed.
+Print Assumptions C05_unquoters_covered.
